@@ -276,6 +276,20 @@ func TestC12(t *testing.T) {
 				e.fail("missing-error:"+sc, "Listen on an address in use succeeded")
 			}
 			same = e.followUps(S, l, nil)
+			if sc == "addr-in-use" && rapid.Bool().Draw(t, "giveUp") {
+				// the loser gives up instead: that must not disturb the
+				// listener that owns the address
+				e.doc["giveUp"] = true
+				e.call("listener.Close() [the one that failed]", l.Close)
+				if !e.bad {
+					if _, err := fixture.Dial(peer, addr); err != nil {
+						e.fail("owner-disturbed:"+sc, "after a second listener failed with address-in-use and was closed, a peer cannot connect to the listener that owns the address: %v", err)
+					}
+				}
+				e.roundTrip(peer, X, "with the listener that owns the address, after the failed one was closed")
+				stats.Class("addr_in_use_give_up")
+				break
+			}
 			if sc == "addr-in-use" {
 				e.call("other.Close()", X.Close)
 				var lerr error
